@@ -528,6 +528,29 @@ func checkSlice(s, snap []int) {
 		}
 	}
 	unchanged("final", s, snap)
+	keepResults(s, ts, snap)
+}
+
+// keepResults makes one more call of every function that returns a new slice and hands the results
+// to the ledger of lib/enum: they stay referenced and are read again after dozens of later calls on
+// other inputs - a value that was returned must not change because of calls made afterwards.
+func keepResults(s []int, ts []E, snap []int) {
+	in := map[string]any{"input": fmt.Sprint(snap)}
+	enum.Catch(func() {
+		e.Keep("Map", slices.Map(ts, func(x E) int { return x.V*10 + x.P }), in)
+		r, _ := slices.MapErr(ts, func(x E) (int, error) { return x.V + 100, nil })
+		e.Keep("MapErr", r, in)
+		e.Keep("Filter", slices.Filter(ts, func(x E) bool { return x.V != 1 }), in)
+		e.Keep("Distinct", slices.Distinct(s), in)
+		e.Keep("DistinctFunc", slices.DistinctFunc(ts, func(a, b E) bool { return a.V == b.V }), in)
+		e.Keep("Except", slices.Except(s, []int{1}), in)
+		e.Keep("ExceptSet", slices.ExceptSet(s, maps.NewSetFromSlice([]int{0})), in)
+		e.Keep("GroupBy", slices.GroupBy(ts, func(x E) int { return x.V % 2 }), in)
+		e.Keep("CountBy", slices.CountBy(ts, func(x E) int { return x.V % 2 }), in)
+		e.Keep("Pairs", slices.Pairs(s), in)
+		e.Keep("Concat", slices.Concat(s, s), in)
+		e.Keep("Clone", slices.Clone(s), in)
+	})
 }
 
 func checkMaps() {
@@ -646,6 +669,16 @@ func checkMaps() {
 			for k, v := range snap {
 				cp[k] = v
 			}
+			enum.Catch(func() {
+				in := map[string]any{"input": fmt.Sprint(snap)}
+				ks := maps.Keys(m)
+				sort.Ints(ks)
+				vs := maps.Values(m)
+				sort.Ints(vs)
+				e.Keep("maps.Keys", ks, in)
+				e.Keep("maps.Values", vs, in)
+				e.Keep("maps.Clone", maps.Clone(m), in)
+			})
 			if call("maps.Clear", snap, func() { maps.Clear(cp) }) && len(cp) != 0 {
 				fail("maps.Clear|result", snap, "after Clear the map holds %v", cp)
 			}
